@@ -804,7 +804,9 @@ impl BackingStore {
         });
         if length == 0 {
             // This will cause `mmap` to fail, so handle it explicitly.
-            return (ptr::null_mut(), length);
+            // The pointer of an empty region is never dereferenced, but it is used to form
+            // (empty) slices, which must not be built from a null pointer.
+            return (ptr::NonNull::<u8>::dangling().as_ptr(), length);
         }
         let address = libc::mmap(
             ptr::null_mut(),
@@ -841,7 +843,7 @@ unsafe impl Sync for OsIpcSharedMemory {}
 impl Drop for OsIpcSharedMemory {
     fn drop(&mut self) {
         unsafe {
-            if !self.ptr.is_null() {
+            if self.length != 0 {
                 let result = libc::munmap(self.ptr as *mut c_void, self.length);
                 assert!(thread::panicking() || result == 0);
             }
